@@ -531,7 +531,13 @@ class Client(base_client.BaseClient):
                 self._handle_ack(pkt.namespace, pkt.id, pkt.data)
             elif pkt.packet_type == packet.BINARY_EVENT or \
                     pkt.packet_type == packet.BINARY_ACK:
-                self._binary_packet = pkt
+                if pkt.attachment_count > 0:
+                    self._binary_packet = pkt
+                elif pkt.packet_type == packet.BINARY_EVENT:
+                    # no attachments were announced, nothing to wait for
+                    self._handle_event(pkt.namespace, pkt.id, pkt.data)
+                else:
+                    self._handle_ack(pkt.namespace, pkt.id, pkt.data)
             elif pkt.packet_type == packet.CONNECT_ERROR:
                 self._handle_error(pkt.namespace, pkt.data)
             else:
